@@ -150,6 +150,11 @@ class MatEngine:
         ci, cj = self._single_item(csp[1]), self._single_item(csp[2])
         if ci is None or cj is None:
             raise MatProblem('output index is not i*N + j over two loop variables')
+        for r_ in (rng(ci), rng(cj)):
+            if r_ is not None and r_[0] == 'BAD':
+                raise MatProblem(r_[1], definite=True)
+        if rng(ci) is None or rng(cj) is None:
+            raise MatProblem('range of an output loop variable not derived (loop idiom outside the range/tile forms)')
         if not (self._range_is(rng(ci), M_) and self._range_is(rng(cj), N_)):
             raise MatProblem('output loops do not range over 0..%s x 0..%s' % (show(M_), show(N_)), definite=True)
         ops = []
@@ -165,6 +170,11 @@ class MatEngine:
             r, c = self._single_item(sp[1]), self._single_item(sp[2])
             if r is None or c is None:
                 raise MatProblem('factor index is not p*S + q over loop variables')
+            for r_ in (rng(r), rng(c)):
+                if r_ is not None and r_[0] == 'BAD':
+                    raise MatProblem(r_[1], definite=True)
+            if rng(r) is None or rng(c) is None:
+                raise MatProblem('range of a factor loop variable not derived (loop idiom outside the range/tile forms)')
             if not (self._range_is(rng(r), mv[1]) and self._range_is(rng(c), mv[2])):
                 raise MatProblem('loop ranges do not match the shape %s x %s of factor %s' % (show(mv[1]), show(mv[2]), show_mat(mv[0])), definite=True)
             ops.append((mv, r, c))
@@ -200,7 +210,7 @@ class MatEngine:
         return None
 
     def _range_is(self, r, size):
-        if r is None or pconst(r[0]) != 0:
+        if r is None or r[0] == 'BAD' or pconst(r[0]) != 0:
             return False
         if peq(r[1], poly(size)):
             return True
@@ -236,11 +246,24 @@ class MatEngine:
                     if c == 1 and len(m) == 2 and o in m:
                         B = [x for x in m if x != o][0]
                         sp = B
-                if sp is not None and peq(poly(a), padd(poly(lo_t), poly(sp))):
+                if sp is not None and not peq(poly(a), padd(poly(lo_t), poly(sp))):
+                    return ('BAD', 'tiles start every %s elements but are min(start + %s, ..) wide: consecutive tiles overlap or leave gaps' % (
+                        show(sp), pshow(psub(poly(a), poly(lo_t)), show)))
+                if sp is not None:
                     ro = ix.item_range(o)
                     want_hi = ('bin', 'Add', ('bin', 'Div', L, sp, 'usize'), ('const', 'usize', 1), 'usize')
                     if ro and pconst(ro[0]) == 0 and peq(ro[1], poly(want_hi)):
                         return ({}, poly(L))
+                    # recognised tile shape with a tile count that provably does not cover 0..L: X/B [+ 1] over another dimension X, or L/B
+                    if ro and pconst(ro[0]) == 0:
+                        hs = ro[1]
+                        for X in [x for x in atoms(hs) if tag(x) == 'bin' and x[1] == 'Div' and strip_casts(x[3]) == strip_casts(sp)]:
+                            plus1 = peq(hs, padd(poly(X), {(): 1}))
+                            bare = peq(hs, poly(X))
+                            if (plus1 or bare) and (strip_casts(X[2]) != strip_casts(L) or bare):
+                                return ('BAD', 'the tile loop runs %s times over tiles of %s covering 0..%s: %s' % (
+                                    pshow(hs, show), show(sp), show(L), 'the count is taken from another dimension' if strip_casts(X[2]) != strip_casts(L)
+                                    else 'the last, partial tile is dropped'))
         return None
 
     # ------------------------------------------------------------------ matmul by flags
